@@ -927,6 +927,10 @@ class LTLayoutContainer(LTContainer[LTComponent]):
                     return (1, -box.y0, box.x0)
 
             textboxes.sort(key=getkey)
+            # Number the text boxes in output order, as IndexAssigner does
+            # when the boxes are grouped.
+            for index, textbox in enumerate(textboxes):
+                textbox.index = index
         else:
             self.groups = self.group_textboxes(laparams, textboxes)
             assigner = IndexAssigner()
